@@ -69,6 +69,23 @@ def splits_character(spec):
     return False
 
 
+def last_step_facts(spec):
+    """(included ranges given for the last step?, does the last edit change the number of line breaks?)"""
+    f = spec.split(" ")
+    if len(f) != 5:
+        return False, False
+    text = b"" if f[2] == "-" else bytes.fromhex(f[2])
+    steps = [st for st in f[4].split("|") if st.count(",") == 3]
+    if not steps:
+        return False, False
+    for st in steps[:-1]:
+        text = apply_edit(text, st)
+    s_, oe, ins, rg = steps[-1].split(",")
+    removed = text[int(s_):int(oe)]
+    inserted = b"" if ins == "-" else bytes.fromhex(ins)
+    return rg != "-", removed.count(b"\n") != inserted.count(b"\n")
+
+
 def run_pipeline(ctx, explorer, cunit, driver, args, tag):
     """explorer -> ops/langs; cunit -> tables; driver -> result lines. Returns (specs, lines, msg)."""
     ops = os.path.join(ctx.workdir, "ops-%s.txt" % tag)
@@ -261,7 +278,10 @@ def run(ctx):
                   # … or some included-range boundary splits a multi-byte character
                   "range_splits_character": splits_character(spec),
                   # … or a range difference starts at/after the end of the OLD tree's last included range
-                  "diff_beyond_old_end": kv.get("diff_beyond_old_end") == "1"}
+                  "diff_beyond_old_end": kv.get("diff_beyond_old_end") == "1",
+                  # … or the parse runs with included ranges and the edit joins/splits lines
+                  "ranges_in_play": last_step_facts(spec)[0],
+                  "edit_changes_line_breaks": last_step_facts(spec)[1]}
             is_known = any(k.get("status") == "known" and match_fp(k.get("match", {}), fp) for k in ctx.known)
             if kv["judge"].startswith("FAIL") and spec and shrunk < 3 and not ctx.replay and not is_known:
                 shrunk += 1
